@@ -274,15 +274,66 @@ Definition algs_documented (T : tables) : bool :=
 (* ---------------- observables for the correspondence ---------------- *)
 Definition show_ob (o : option bool) : val := match o with Some b => VB b | None => VNone end.
 Definition show_verify (r : shared * result (option bool)) : val := show_result show_ob (snd r).
-Definition show_key (k : option keyid) : val := match k with Some n => VN n | None => VNone end.
+Definition show_key (k : option keyid) : val := match k with Some n => VZ (Z.of_N n) | None => VNone end.
 Definition show_params (ps : list (str * str)) : val := VL (map (fun kv => VL [VS (fst kv); VS (snd kv)]) ps).
 (* a produced query: parameter list (without Signature) and the key that signed it *)
 Definition show_signed (r : result query) : val :=
   show_result (fun q => VL [show_params (q_params q); show_key (used_key (Ok q))]) r.
 Definition show_out (x : out) : val :=
   match x with
-  | OutHandle h => VL [VN 0; VB (match h with Some _ => true | None => false end)]
-  | OutSigned r => VL [VN 1; match r with Ok _ => show_key (used_key r) | Err e => VE e end]
-  | OutVerified r => VL [VN 2; show_result show_ob r]
+  | OutHandle h => VL [VZ 0%Z; VB (match h with Some _ => true | None => false end)]
+  | OutSigned r => VL [VZ 1%Z; match r with Ok _ => show_key (used_key r) | Err e => VE e end]
+  | OutVerified r => VL [VZ 2%Z; show_result show_ob r]
   end.
 Definition show_run (T : tables) (tr : list op) : val := VL (map show_out (run T (init_shared T) tr)).
+
+(* ---------------- helpers for the correspondence harness ---------------- *)
+Definition digest_of (T : tables) (alg : str) : str :=
+  match sh_get (init_shared T) alg with Some o => so_digest o | None => [] end.
+(* the Signature value an entity holding key k produces for these parameters *)
+Definition made_sig (T : tables) (k : keyid) (typ m rs alg : str) : sigparam :=
+  SigOf (rsa_sign k (digest_of T alg)
+           (urlencode_g (t_sign_tilde T)
+              (ordered (if str_eqb typ K_REQ then t_sreq T else t_sresp T) (redirect_args typ m rs ++ [(K_ALG, alg)])))).
+(* a state in which key k is stored for every algorithm *)
+Definition all_keys (T : tables) (k : option keyid) : shared :=
+  map (fun r => (fst r, {| so_digest := snd r; so_key := k |})) (t_algs T).
+
+(* scripts: sugar over [op] in which a Verify step refers to a query produced earlier in the same run *)
+Inductive sop :=
+| SGet (e : keyid) (alg : str)
+| SSign (e : keyid) (response : bool) (m rs alg : str)      (* http_redirect_message with the handle e obtained for alg *)
+| SApply (e : keyid) (response : bool) (m rs alg : str)     (* apply_binding(sign=True, sigalg=alg) = get_signer ; sign *)
+| SVerify (e : keyid) (alg : str) (cert : option keyid).    (* the latest query made with SigAlg alg, else a junk one *)
+
+Definition junk_query (alg : str) : query :=
+  {| q_params := [(K_REQ, s2l "x"); (K_ALG, alg)]; q_sig := Some (SigJunk true) |}.
+Fixpoint find_query (alg : str) (qs : list query) : query :=
+  match qs with
+  | [] => junk_query alg
+  | q :: r => match lookup K_ALG (q_params q) with
+              | Some a => if str_eqb a alg then q else find_query alg r
+              | None => find_query alg r
+              end
+  end.
+Definition remember (x : out) (made : list query) : list query :=
+  match x with OutSigned (Ok q) => q :: made | _ => made end.
+
+Fixpoint run_script (T : tables) (st : shared) (made : list query) (s : list sop) : list val :=
+  match s with
+  | [] => []
+  | SGet e alg :: r =>
+      let '(st', x) := step T st (OGet (Some e) alg) in show_out x :: run_script T st' made r
+  | SSign e resp m rs alg :: r =>
+      let '(st', x) := step T st (OSign (Some e) (if resp then K_RESP else K_REQ) m rs alg (Some alg)) in
+      show_out x :: run_script T st' (remember x made) r
+  | SApply e resp m rs alg :: r =>
+      let '(st1, x1) := step T st (OGet (Some e) alg) in
+      let h := match x1 with OutHandle h => h | _ => None end in
+      let '(st2, x) := step T st1 (OSign (Some e) (if resp then K_RESP else K_REQ) m rs alg h) in
+      show_out x :: run_script T st2 (remember x made) r
+  | SVerify e alg cert :: r =>
+      let '(st', x) := step T st (OVerify (Some e) (find_query alg made) cert None) in
+      show_out x :: run_script T st' made r
+  end.
+Definition show_script (T : tables) (s : list sop) : val := VL (run_script T (init_shared T) [] s).
